@@ -33,7 +33,7 @@ sim_claim("C05", "per-call no panic / no hang (watchdog + fresh-process confirma
   "Limits below 4 characters are excluded (gocommon TruncateEllipsis panics for limits < 3). Quick-reply (64) and attachment (2048) limits are the documented constants written as literals.")
 sim_claim("C06", "membership == query result at every hand-back and after every effective direct modifier, over histories that change attributes by every route",
   "For every query-based group of the assets in force: contact in group iff CheckQueryBasedMembership is true, after every sprint (trigger and resume paths, UI edits between sprints, stale stored membership) and after every effective direct modifier; contacts that became non-active must have left their static groups.",
-  "Uses the repository's own query evaluator for the semantics (its correctness is C15's subject) but nothing computed earlier: the group's query text is parsed afresh under the evaluating environment, and the answer must be the same on the contact with its URNs in reverse order (metamorphic check). Assets may have been loaded under an older environment than the session's (fault). Where the session's base and merged environments disagree on a date condition either result is accepted (counted); a modifier that changes nothing is not required to repair stale stored membership.")
+  "What 'the query matches' means is decided by a reference evaluator of the generated query grammar (own parser and semantics over the generic JSON of the contact, no contactql code): the library's answer - on the query text parsed afresh under the evaluating environment, so nothing computed at asset load takes part - must equal the reference's, and must be the same on the contact with its URNs in reverse order. Assets may have been loaded under an older environment than the session's (fault). Where the session's base and merged environments disagree on a date condition either result is accepted (counted); a modifier that changes nothing is not required to repair stale stored membership.")
 
 CLAIMED["C10"] = ("fault_enumeration",
   "deterministic simulation with fault injection: at every wait reached in a simulated run the host forks the persisted session and enumerates one-step futures (resume type x live/restored x asset-store fault x resume limit), each under a restored seam snapshot",
